@@ -956,7 +956,7 @@ thread_local! {
 
 pub fn run_one(h: &Harness, prefix: &[u8], o: &ExecOpts) -> ExecOut {
   let n = h.progs.len();
-  let cfg = Cfg { fl: h.fl, backend: Backend::Vec, unify: h.unify, reserved: 0, min_seg: h.min_seg, max_align: 8, cap: h.cap, magic: 0, file_offset: 0 };
+  let cfg = Cfg { fl: h.fl, backend: Backend::Vec, unify: h.unify, reserved: 0, min_seg: h.min_seg, max_align: 8, cap: h.cap, magic: 0, file_offset: 0, retries: 5 };
   let arena: Arena = Options::new().with_capacity(h.cap).with_unify(h.unify).with_freelist(h.fl.to()).with_minimum_segment_size(h.min_seg).alloc::<Arena>().expect("arena");
   let dof = cfg.data_offset();
   let base = arena.raw_mut_ptr();
